@@ -6,6 +6,7 @@ import Norad.Lemmas.JudgeConverse
 import Norad.Generated.GlifParser
 import Norad.Lemmas.C02
 import Norad.Lemmas.GlifGen
+import Norad.Lemmas.GlifGenV1
 import Norad.Props.C11
 /-!
 # C12 — glif documents breaking the structure rules are rejected, legal ones accepted
@@ -1205,6 +1206,26 @@ example :
     (s := { g := { name := ['a'] }, ver := 2 })
     (e := { name := sAnchor, attrs := some [(['y'], ['2']), ("name".toList, ['t']), (['x'], ['1'])] })
     (by decide +kernel) (by intro as v _ _ h; cases h)).2.2.1 rfl rfl
+
+/-! ### legal documents are accepted: format 1 of the generative grammar -/
+
+section
+variable {f : Fmt} {rd : Str → Option Nat} {nc : Color → Color} {ok : Nat → Prop}
+
+/-- **legal_accepted, format 1**: a format-1 document of the generative grammar (`renderV1`: no identifiers, none of
+    anchor/guideline/image/note — the format-1 refusals extracted from `parse.rs`), and every document that differs from it
+    only in attribute order, is accepted and returns `loadObjectLibs (interpV1 d)`; the single named `move` points have
+    become anchors (`v1_single_named_move_becomes_anchor`). -/
+theorem legal_accepted_v1 (hc : Codec f rd nc ok) (d : GDoc) (hp : ∀ e, e ∈ d.prolog → isProlog e = true)
+    (hn : validName d.name = true) (hL : LegalItemsV1 ok d.items)
+    (hol : ∀ v, dictGet objectLibsKey (interpV1 d).lib = some v → ∃ ol, v = PV.dict ol ∧ AllDicts ol)
+    {evs : List Ev} (hperm : EvsPerm (renderV1 f d) evs) :
+    ∃ g, parseGlif rd evs = .ok g ∧ loadObjectLibs (interpV1 d) = .ok g := by
+  obtain ⟨g, hg⟩ := loadObjectLibs_ok hol
+  refine ⟨g, ?_, hg⟩
+  rw [← parseGlif_attr_order_irrelevant rd hperm, legal_accepted_gdoc_v1 hc d hp hn hL, hg]
+
+end
 
 /-! ### a `judge`-clean document is accepted: non-vacuity -/
 
